@@ -37,6 +37,12 @@ FIRST_MISSED = {
     "C09-6": "`load_safety_factors`: two-column (load_step, node_id) meshes whose second field is up to 1e4 times the load; gamma_L from the first column only",
     "C15-6": "`vector_call`: load_std arrays mixing exact zeros and positive entries == scalar calls",
     "C05-7": "`batch_vs_alone`: sequences ending in [p, q, r] with r strictly between zero and the first sample, so that the closure of (p, q) is carried into the second pass and booked to the first, followed by second-pass hystereses (the plain lists reached that class in 1 of 300 cases)",
+    "C16-4": "`ro_masing`: reversal points of either sign (branches that start in compression), spans up to 2|max_stress|",
+    "C17-5": "von Mises against the definition evaluated in rational arithmetic on the very components passed (16 eps), classes `pressure_plus_deviator` / `pressure_offset` (pressure 1e3-1e7 times the deviator)",
+    "C09-8": "`lifetime_accumulation`: 1-3 assessment points with drawn row arrangements (hysteresis-major, point-major, interleaved), one point failing within the two passes next to a long-lived one; `cumulative_damage` column checked",
+    "C04-9": "`second_pass_random`: the extreme load level reached several times with both signs, the samples differing by 1-3 ulps (0.1*3*1000 vs 300.0)",
+    "C10-8": "`batch_independence`/`batch_sequence`: low-cycle class (12-40 large cycles at 2-4 R_m) in which the highest loaded point reaches damage sum 1 within the two recorded passes",
+    "C10-9": "the per-node-maxima request passed as numpy bool or integer 1 as well as the literal True",
     "C02-1": "signal kind `decimal` (values single precision cannot represent, with exact ties)",
     "C02-3": "operator `near_plateau` (neighbour 1 ulp / 1e-12 / 1e-9 away: no plateau)",
     "C03-3": "new sub-check `nan_chunked` (NaN clause combined with chunked feeding)",
